@@ -454,8 +454,14 @@ func runNatives(c *Ctx) {
 		code[s] = compile(s)
 	}
 	code["iter"] = compile("[.[]]")
-	for _, s := range []string{"sort_by", "group_by", "unique_by", "min_by", "max_by"} {
-		code[s] = compile(s + "(.[1])")
+	byNames := []string{"sort_by", "group_by", "unique_by", "min_by", "max_by"}
+	cached := func(src string, vars ...string) *gojq.Code {
+		if cd, ok := code[src]; ok {
+			return cd
+		}
+		cd := compile(src, vars...)
+		code[src] = cd
+		return cd
 	}
 	code["bsearch"] = compile("bsearch($t)", "$t")
 	code["sub"] = compile(". - $t", "$t")
@@ -464,6 +470,10 @@ func runNatives(c *Ctx) {
 	code["rindex"] = compile("rindex($t)", "$t")
 
 	pick := func(pool []any) any {
+		if r.Chance(1, 12) {
+			// repeated values at the smallest positions of the order (null is also Go's nil)
+			return []any{nil, nil, false, true, 0}[r.Intn(5)]
+		}
 		if r.Chance(2, 5) {
 			cl := clusters[r.Intn(len(clusters))]
 			return cl[r.Intn(len(cl))]
@@ -521,20 +531,136 @@ func runNatives(c *Ctx) {
 		c.Emit("(%s %s %s %s)", name, SexpVal(in), SexpVal(t), SexpVal(res))
 		c.Count(name)
 	}
+	// b(f) on A.  The keys the builtin receives are computed by the implementation's own `map([f])`
+	// (builtin.jq: def sort_by(f): _sort_by(map([f]))): the key of an element is the ARRAY of all
+	// outputs of f, whatever their number.
+	emitBy := func(f string, in []any) {
+		ks, ok := run1(cached("map(["+f+"])"), in).([]any)
+		if !ok || len(ks) != len(in) {
+			c.Count("by-skipped")
+			return
+		}
+		for _, b := range byNames {
+			res := run1(cached(b+"("+f+")"), in)
+			c.Emit("(%s %s %s %s %s)", b, SexpVal(in), SexpVal(ks), SexpVal(f), SexpVal(res))
+			c.Count(b)
+		}
+		c.Count("by:" + f)
+	}
+	// key expressions with 0, 1, 2 and a varying number of outputs per element
+	byCase := func(pool []any) (string, []any) {
+		n := length()
+		sub := make([]any, 2+r.Intn(5))
+		for i := range sub {
+			sub[i] = pick(pool)
+		}
+		some := func(k int) []any {
+			xs := make([]any, k)
+			for i := range xs {
+				xs[i] = pick(sub)
+			}
+			return xs
+		}
+		xs := make([]any, n)
+		switch r.Intn(8) {
+		case 0:
+			return ".[1]", randPairs(pool)
+		case 1:
+			for i := range xs {
+				ks := some(r.Intn(4))
+				if r.Chance(1, 4) {
+					ks = []any{some(1 + r.Intn(2))} // one output that is itself an array: [[x,y]] next to [x,y]
+				}
+				xs[i] = map[string]any{"v": i, "ks": ks}
+			}
+			return ".ks[]", xs
+		case 2:
+			for i := range xs {
+				switch r.Intn(5) {
+				case 0:
+					xs[i] = map[string]any{"b": i}
+				case 1:
+					xs[i] = pick(sub) // numbers, strings, arrays: .a fails, `?` gives no output; null and objects give one
+				default:
+					xs[i] = map[string]any{"a": pick(sub), "i": i}
+				}
+			}
+			return ".a?", xs
+		case 3:
+			for i := range xs {
+				switch r.Intn(5) {
+				case 0:
+					xs[i] = pick(sub)
+				case 1:
+					xs[i] = map[string]any{"x": pick(sub), "y": pick(sub)}
+				default:
+					xs[i] = some(r.Intn(4))
+				}
+			}
+			return ".[]?", xs
+		case 4:
+			for i := range xs {
+				m := map[string]any{"i": i}
+				if r.Chance(2, 3) {
+					m["a"] = pick(sub)
+				}
+				if r.Chance(2, 3) {
+					m["b"] = pick(sub)
+				}
+				xs[i] = m
+			}
+			return "(.a, .b)", xs
+		case 5:
+			for i := range xs {
+				xs[i] = pick(sub)
+			}
+			return "empty", xs
+		case 6:
+			nums := []any{-1, 0, 1, 1.0, big.NewInt(1), 2, 0.5, -0.5, nil, json.Number("1.0")}
+			for i := range xs {
+				xs[i] = map[string]any{"a": nums[r.Intn(len(nums))], "i": r.Intn(3)}
+			}
+			return "select(.a > 0)", xs
+		default:
+			for i := range xs {
+				xs[i] = some(r.Intn(5))
+			}
+			return ".[0:2][]", xs
+		}
+	}
+	// deterministic block: repeated values at every position of the order, null first ([v,v], [v,v,w], [w,v,v], [v])
+	for i, v := range dom {
+		w := dom[(i*7+3)%len(dom)]
+		for _, a := range [][]any{{v, v}, {v, v, w}, {w, v, v}, {v}} {
+			for _, s := range []string{"sort", "unique", "min", "max"} {
+				emit2(s, a)
+			}
+			emitBy(".", a)
+		}
+	}
 	for iter := 0; iter < c.N; iter++ {
 		a := randArray(dom)
 		for _, s := range []string{"sort", "unique", "min", "max"} {
 			emit2(s, a)
 		}
-		p := randPairs(dom)
-		for _, s := range []string{"sort_by", "group_by", "unique_by", "min_by", "max_by"} {
-			emit2(s, p)
+		emitBy(".[1]", randPairs(dom))
+		for k := 0; k < 2; k++ {
+			f, in := byCase(dom)
+			emitBy(f, in)
 		}
 		// min/max copy a loop, no sort involved: any value may take part (NaN, huge floats)
 		emit2("min", randArray(u))
 		emit2("max", randArray(u))
-		emit2("min_by", randPairs(u))
-		emit2("max_by", randPairs(u))
+		{
+			// min_by/max_by copy a loop: any value may be a key
+			in := randPairs(u)
+			if ks, ok := run1(cached("map([.[1]])"), in).([]any); ok {
+				for _, b := range []string{"min_by", "max_by"} {
+					c.Emit("(%s %s %s %s %s)", b, SexpVal(in), SexpVal(ks), SexpVal(".[1]"), SexpVal(run1(cached(b+"(.[1])"), in)))
+					c.Count(b)
+				}
+			}
+		}
 		// bsearch: on the implementation's own sort output, and on an arbitrary array
 		sorted, _ := run1(code["sort"], randArray(dom)).([]any)
 		var t any
@@ -726,7 +852,6 @@ func valueOf(e *sx) (any, error) {
 }
 
 var caseQueries = map[string]string{"sort": "sort", "unique": "unique", "min": "min", "max": "max", "keys": "keys", "iter": "[.[]]",
-	"sort_by": "sort_by(.[1])", "group_by": "group_by(.[1])", "unique_by": "unique_by(.[1])", "min_by": "min_by(.[1])", "max_by": "max_by(.[1])",
 	"bsearch": "bsearch($t)", "sub": ". - $t", "indices": "indices($t)", "index": "index($t)", "rindex": "rindex($t)"}
 
 func runCase(c *Ctx) {
@@ -800,6 +925,33 @@ func runCase(c *Ctx) {
 			if bs, err := gojq.Marshal(vals[0]); err == nil {
 				c.Emit("(jsonkeys %s %s)", sxs[0], orderedOf(string(bs)))
 			}
+		case "sort_by", "group_by", "unique_by", "min_by", "max_by":
+			// (b A KS F R): recompute KS = map([f]) and R = b(f) on A
+			in, ok := vals[0].([]any)
+			if !ok || len(e.list) < 5 {
+				c.Emit("(unparsable-case)")
+				continue
+			}
+			fv, err := valueOf(e.list[3])
+			f, ok := fv.(string)
+			if err != nil || !ok {
+				c.Emit("(unparsable-case)")
+				continue
+			}
+			q1, err1 := gojq.Parse("map([" + f + "])")
+			q2, err2 := gojq.Parse(kind + "(" + f + ")")
+			if err1 != nil || err2 != nil {
+				c.Emit("(unparsable-case)")
+				continue
+			}
+			var ks, res any
+			if it := q1.Run(in); true {
+				ks, _ = it.Next()
+			}
+			if it := q2.Run(in); true {
+				res, _ = it.Next()
+			}
+			c.Emit("(%s %s %s %s %s)", kind, sxs[0], SexpVal(ks), SexpVal(f), SexpVal(res))
 		default:
 			q, ok := caseQueries[kind]
 			if !ok {
